@@ -237,8 +237,18 @@ def render_decl(d: dict, mod: dict, defined: set) -> str:
                 out.append(f"    {f['n']}: {ann}")
     elif kind == "typeddict":
         tot = "" if d.get("total", True) else ", total=False"
-        out.append(f"class {n}(typing.TypedDict{tot}):")
-        for f in d["fields"]:
+        head = f"class {n}(typing.TypedDict{tot}):"
+        if d.get("split"):
+            # a base TypedDict of one totality, the class itself of the other
+            bt = "" if d["base_total"] else ", total=False"
+            ct = ", total=False" if d["base_total"] else ""
+            out.append(f"class {n}__base(typing.TypedDict{bt}):")
+            head = f"class {n}({n}__base{ct}):"
+        else:
+            out.append(head)
+        for fi, f in enumerate(d["fields"]):
+            if d.get("split") and fi == d["split"]:
+                out.append(head)
             ann = tsrc(f["t"], mod["name"])
             if f.get("nr"):
                 ann = f"typing.NotRequired[{ann}]"
